@@ -139,7 +139,22 @@ def run(spec):
     stats = {'tokens_applied': 0, 'rows': 0, 'false_polls': 0, 'coincident_batches': 0}
     rows = []
     batch_times = {}
+    flagsets = {}        # (pid, k) -> the value that invocation's update sets the shared flag to
+    flag_now = [True]    # values the flag may hold: those set by the updates of the last batch that set it
+    flag_batch = [None]
     for ev in m.events:
+        if ev[0] == 'flagset':
+            flagsets[tuple(ev[1])] = ev[2]
+        elif ev[0] == 'apply' and (ev[1][0], ev[1][1]) in flagsets and not spec.get('parallel'):
+            # (several processes may set the flag in one batch: the order inside a batch is not asserted)
+            if flag_batch[0] != ev[2]:
+                flag_batch[0] = ev[2]
+                flag_now = []
+            flag_now.append(flagsets[(ev[1][0], ev[1][1])])
+        elif ev[0] == 'emit' and ev[1] == 'history' and not spec.get('parallel') and 'flag' in ev[3]:
+            V.check('flag_follows_updates', ev[3]['flag'] in flag_now,
+                    lambda: ('row at t=%r: the shared flag (updater set) holds %r, the last batch that set it sent %r' % (
+                        ev[2], ev[3]['flag'], flag_now),))
         if ev[0] == 'apply':
             tok, t = ev[1], ev[2]
             applied.setdefault(tok, []).append(t)
